@@ -30,7 +30,7 @@ func GetValue(updValue *gnmi.TypedValue) (interface{}, error) {
 	}
 	var value interface{}
 	var jsondata []byte
-	switch updValue.Value.(type) {
+	switch updValue.GetValue().(type) {
 	case *gnmi.TypedValue_AsciiVal:
 		value = updValue.GetAsciiVal()
 	case *gnmi.TypedValue_BoolVal:
@@ -72,7 +72,7 @@ func GetValue(updValue *gnmi.TypedValue) (interface{}, error) {
 }
 
 func GetJsonValue(tv *sdcpb.TypedValue, ietf bool) (any, error) {
-	switch tv.Value.(type) {
+	switch tv.GetValue().(type) {
 	case *sdcpb.TypedValue_EmptyVal:
 		return map[string]any{}, nil
 	case *sdcpb.TypedValue_LeaflistVal:
@@ -104,7 +104,7 @@ func GetSchemaValue(updValue *sdcpb.TypedValue) (interface{}, error) {
 	}
 	var value interface{}
 	var jsondata []byte
-	switch updValue.Value.(type) {
+	switch updValue.GetValue().(type) {
 	case *sdcpb.TypedValue_AsciiVal:
 		value = updValue.GetAsciiVal()
 	case *sdcpb.TypedValue_BoolVal:
@@ -443,7 +443,7 @@ func EqualTypedValues(v1, v2 *sdcpb.TypedValue) bool {
 }
 
 func TypedValueToString(tv *sdcpb.TypedValue) string {
-	switch tv.Value.(type) {
+	switch tv.GetValue().(type) {
 	case *sdcpb.TypedValue_AnyVal:
 		return string(tv.GetAnyVal().GetValue()) // questionable...
 	case *sdcpb.TypedValue_AsciiVal:
